@@ -335,8 +335,11 @@ package fiber
 
 // (methodExist: checked contract in zz_contracts_c01idx_verif.go)
 
-//@ func NewError assumed pure fresh
-//@   ensures carries-code: result.Code == code
+// (checked since the binder round: was `assumed`)
+//@ func NewError fresh
+//@   props C08 C07
+//@   pure
+//@   ensures carries-code: result != nil && result.Code == code
 
 // next: scans the bucket from the position after c.indexRoute, skips mount markers and routes that do not
 // match, and runs the first handler of the first route that matches; nothing matched => error.
